@@ -664,3 +664,235 @@ Proof.
   unfold dialout_ok. replace st' with (fst (step true st b)) by now rewrite E.
   unfold step. cbn [fst]. rewrite deliver_dialout. exact Hdo.
 Qed.
+
+(* ---- malformed requests are rejected before anything is published ------------------------------------------ *)
+Definition zero_req : gval := zero (TStruct req_fields).
+
+Lemma request_fields : forall ms req, decode ty_request (zero ty_request) (JObj ms) = Ok req ->
+  exists vs, req = GStruct vs /\ decode_fields req_fields zero_req ms = Ok vs.
+Proof.
+  intros ms req H. rewrite ty_request_eq, decode_struct_obj in H. fold zero_req in H.
+  destruct (decode_fields req_fields zero_req ms) as [vs|]; [|discriminate].
+  inversion H. eauto.
+Qed.
+
+Lemma field_value : forall ms vs gn jn ft, decode_fields req_fields zero_req ms = Ok vs ->
+  In (gn, jn, ft) req_fields ->
+  exists v, decode_occs ft (nonnull_occurrences jn ms) (sget gn zero_req (zero ft)) = Ok v /\ fld gn (GStruct vs) = v.
+Proof.
+  intros ms vs gn jn ft H Hin.
+  destruct (decode_fields_assoc _ _ _ _ _ _ _ H req_fields_nodup Hin) as [v [Hv Ha]].
+  exists v. split; [assumption|]. cbn [fld]. now rewrite Ha.
+Qed.
+
+Lemma type_field_in : In ("Type", "type", TString) req_fields.
+Proof. cbn; tauto. Qed.
+
+(* "type" holds the last non-null occurrence *)
+Lemma type_value : forall ms vs ty, decode_fields req_fields zero_req ms = Ok vs ->
+  effective_type ms = Some ty -> as_str (fld "Type" (GStruct vs)) = ty.
+Proof.
+  intros ms vs ty H He. unfold effective_type in He.
+  destruct (last_nonnull "type" ms) as [x|] eqn:El; [|discriminate].
+  destruct x; try discriminate. inversion He; subst s.
+  destruct (field_value _ _ _ _ _ H type_field_in) as [v [Hv Hf]].
+  destruct (last_nonnull_split _ _ _ El) as [pre Hsplit]. rewrite Hsplit in Hv.
+  apply (decode_occs_last _ _ _ _ _ replacing_string) in Hv. cbn in Hv. injection Hv as <-.
+  rewrite Hf. reflexivity.
+Qed.
+
+Lemma type_value_none : forall ms vs, decode_fields req_fields zero_req ms = Ok vs ->
+  nonnull_occurrences "type" ms = [] -> as_str (fld "Type" (GStruct vs)) = "".
+Proof.
+  intros ms vs H Hn. destruct (field_value _ _ _ _ _ H type_field_in) as [v [Hv Hf]].
+  rewrite Hn in Hv. cbn in Hv. injection Hv as <-. rewrite Hf. reflexivity.
+Qed.
+
+Lemma wrong_kind_no_decode : forall ms vs, wrong_kind_member ms = true ->
+  decode_fields req_fields zero_req ms = Ok vs -> False.
+Proof.
+  intros ms vs Hw Hd. unfold wrong_kind_member in Hw. apply orb_prop in Hw as [Hw|Hw].
+  - apply existsb_exists in Hw as [v [Hin Hv]]. apply negb_true_iff in Hv.
+    destruct (decode_fields_err req_fields zero_req ms "Type" "type" TString v type_field_in Hin) as [e He];
+      [intros c'; now apply decode_string_err | congruence].
+  - apply existsb_exists in Hw as [k [Hk Hw]]. apply existsb_exists in Hw as [v [Hin Hv]].
+    apply negb_true_iff in Hv.
+    assert (Hnn : is_null v = false).
+    { apply in_nonnull_occurrences in Hin as [_ Hne]. destruct v; try reflexivity. congruence. }
+    assert (Hfield : exists F fs, In (F, k, TPtr (TStruct fs)) req_fields).
+    { cbn in Hk. destruct Hk as [<-|[<-|[<-|[<-|[<-|[<-|[<-|[<-|[<-|[<-|[]]]]]]]]]]];
+        eexists; eexists; cbn; unfold ty_invite, ty_disinvite, ty_update, ty_delete, ty_incall,
+          ty_participants, ty_message, ty_switchto, ty_dialout, ty_transient; tauto. }
+    destruct Hfield as [F [fs HF]].
+    destruct (decode_fields_err req_fields zero_req ms F k (TPtr (TStruct fs)) v HF Hin) as [e He];
+      [intros c'; now apply decode_ptr_struct_err | congruence].
+Qed.
+
+Lemma not_api_type : forall ty, existsb (String.eqb ty) api_types = false ->
+  String.eqb ty "invite" = false /\ String.eqb ty "disinvite" = false /\ String.eqb ty "update" = false /\
+  String.eqb ty "delete" = false /\ String.eqb ty "incall" = false /\ String.eqb ty "participants" = false /\
+  String.eqb ty "message" = false /\ String.eqb ty "switchto" = false /\ String.eqb ty "dialout" = false.
+Proof.
+  intros ty H. cbn [existsb api_types] in H.
+  repeat (apply orb_false_iff in H as [? H]). tauto.
+Qed.
+
+Lemma unknown_type_rejected : forall st req, existsb (String.eqb (as_str (fld "Type" req))) api_types = false ->
+  dispatch st req = hdone 400 [].
+Proof.
+  intros st req H. apply not_api_type in H as [H1 [H2 [H3 [H4 [H5 [H6 [H7 [H8 H9]]]]]]]].
+  unfold dispatch. now rewrite H1, H2, H3, H4, H5, H6, H7, H8, H9.
+Qed.
+
+(* the sub-object member of every API type and its Go field *)
+Lemma api_type_field : forall ty, existsb (String.eqb ty) api_types = true ->
+  exists F fs, sub_field ty = Some F /\ In (F, ty, TPtr (TStruct fs)) req_fields /\ sget F zero_req (zero (TPtr (TStruct fs))) = GNil.
+Proof.
+  intros ty H. apply existsb_exists in H as [x [Hin He]]. apply String.eqb_eq in He. subst x.
+  cbn in Hin.
+  destruct Hin as [<-|[<-|[<-|[<-|[<-|[<-|[<-|[<-|[<-|[]]]]]]]]]];
+    eexists; eexists; (split; [reflexivity|]); (split; [cbn; unfold ty_invite, ty_disinvite, ty_update, ty_delete, ty_incall,
+          ty_participants, ty_message, ty_switchto, ty_dialout; tauto | reflexivity]).
+Qed.
+
+Lemma missing_sub_invalid : forall ms vs ty, decode_fields req_fields zero_req ms = Ok vs ->
+  as_str (fld "Type" (GStruct vs)) = ty -> existsb (String.eqb ty) api_types = true ->
+  nonnull_occurrences ty ms = [] -> check_valid (GStruct vs) = false.
+Proof.
+  intros ms vs ty H Hty Hapi Hn.
+  destruct (api_type_field ty Hapi) as [F [fs [Hsf [Hin Hz]]]].
+  destruct (field_value _ _ _ _ _ H Hin) as [v [Hv Hf]].
+  rewrite Hn in Hv. cbn [decode_occs] in Hv. rewrite Hz in Hv. injection Hv as <-.
+  unfold check_valid. rewrite Hty. destruct (String.eqb ty ""); [reflexivity|].
+  rewrite Hsf, Hf. reflexivity.
+Qed.
+
+Lemma decode_ptr_obj : forall t cur ms,
+  decode (TPtr t) cur (JObj ms) =
+  match decode t (match cur with GPtr v => v | _ => zero t end) (JObj ms) with Ok v => Ok (GPtr v) | Err e => Err e end.
+Proof. reflexivity. Qed.
+
+Lemma nonnull_single : forall k ms x, occurrences k ms = [x] -> is_null x = false -> nonnull_occurrences k ms = [x].
+Proof. intros k ms x H Hn. unfold nonnull_occurrences. rewrite H. cbn. now rewrite Hn. Qed.
+
+Lemma bad_sessions_invalid : forall ms vs, decode_fields req_fields zero_req ms = Ok vs ->
+  as_str (fld "Type" (GStruct vs)) = "switchto" -> bad_sessions ms = true -> check_valid (GStruct vs) = false.
+Proof.
+  intros ms vs H Hty Hb. unfold bad_sessions in Hb.
+  destruct (occurrences "switchto" ms) as [|o [|? ?]] eqn:Eo; try discriminate.
+  2: { destruct o; discriminate. }
+  destruct o; try discriminate. rename ms0 into sw.
+  assert (Hin : In ("SwitchTo", "switchto", TPtr (TStruct swfields)) req_fields) by (cbn; unfold ty_switchto; tauto).
+  destruct (field_value _ _ _ _ _ H Hin) as [v [Hv Hf]].
+  rewrite (nonnull_single _ _ _ Eo eq_refl) in Hv.
+  change (sget "SwitchTo" zero_req (zero (TPtr (TStruct swfields)))) with GNil in Hv.
+  cbn [decode_occs] in Hv.
+  destruct (decode (TPtr (TStruct swfields)) GNil (JObj sw)) as [c|] eqn:Ed; [|discriminate].
+  injection Hv as ->.
+  rewrite decode_ptr_obj, decode_struct_obj in Ed.
+  destruct (decode_fields swfields (zero (TStruct swfields)) sw) as [vs2|] eqn:E2; [|discriminate].
+  injection Ed as <-.
+  (* the raw "sessions" value *)
+  assert (Hraw : forall x, occurrences "sessions" sw = [x] -> is_null x = false ->
+                 as_raw (fld "Sessions" (GStruct vs2)) = Some x).
+  { intros x Hx Hnx.
+    assert (Hs : In ("Sessions", "sessions", TRaw) swfields) by (cbn; tauto).
+    destruct (decode_fields_assoc _ _ _ _ _ _ _ E2 swfields_nodup Hs) as [w [Hw Ha]].
+    rewrite (nonnull_single _ _ _ Hx Hnx) in Hw. cbn in Hw. injection Hw as <-.
+    cbn [fld]. rewrite Ha. reflexivity. }
+  unfold check_valid. rewrite Hty. cbn [String.eqb Ascii.eqb Bool.eqb sub_field]. rewrite Hf. cbn [deref].
+  unfold switchto_valid.
+  destruct (occurrences "sessions" sw) as [|x [|? ?]] eqn:Es; try discriminate.
+  2: { destruct x; discriminate. }
+  destruct x; try discriminate; try (rewrite (Hraw _ eq_refl eq_refl); reflexivity).
+  rewrite (Hraw _ eq_refl eq_refl). now rewrite (std_string_list_bad _ Hb).
+Qed.
+
+Lemma malformed_rejected : forall st b, malformed b = true -> handle true st b = hdone 400 [].
+Proof.
+  intros st b Hm. destruct b as [|j]; [reflexivity|]. cbn [handle].
+  destruct (Z.of_nat (json_depth j) >? max_nesting)%Z; [reflexivity|].
+  destruct (decode ty_request (zero ty_request) j) as [req|] eqn:Ed; [|reflexivity].
+  cbn [andb]. cbn [malformed] in Hm.
+  assert (Hcases : check_valid req = false \/ dispatch st req = hdone 400 []).
+  { destruct j; cbn [malformed_doc] in Hm.
+    1-6: rewrite ty_request_eq in Ed; cbn in Ed; try discriminate; inversion Ed; subst req; left; reflexivity.
+    destruct (request_fields _ _ Ed) as [vs [-> Hdf]].
+    apply orb_prop in Hm as [Hw|Hm]; [exfalso; eapply wrong_kind_no_decode; eauto|].
+    destruct (effective_type ms) as [ty|] eqn:Ety.
+    - pose proof (type_value _ _ _ Hdf Ety) as Hty.
+      apply orb_prop in Hm as [Hm|Hm]; [apply orb_prop in Hm as [Hm|Hm]|].
+      + apply negb_true_iff in Hm. right. apply unknown_type_rejected. now rewrite Hty.
+      + destruct (existsb (String.eqb ty) api_types) eqn:Hapi.
+        * left. destruct (nonnull_occurrences ty ms) eqn:En; [|discriminate].
+          eapply missing_sub_invalid; eauto.
+        * right. apply unknown_type_rejected. now rewrite Hty.
+      + apply andb_prop in Hm as [Hsw Hbs]. apply String.eqb_eq in Hsw. subst ty.
+        left. eapply bad_sessions_invalid; eauto.
+    - left. unfold effective_type in Ety.
+      destruct (last_nonnull "type" ms) as [x|] eqn:El.
+      + exfalso. eapply wrong_kind_no_decode; [|exact Hdf]. unfold wrong_kind_member.
+        apply orb_true_iff; left. apply existsb_exists. exists x. split; [now apply last_nonnull_in|].
+        destruct x; try reflexivity. discriminate.
+      + pose proof (type_value_none _ _ Hdf (last_nonnull_none _ _ El)) as Hty.
+        unfold check_valid. now rewrite Hty. }
+  destruct Hcases as [Hcv|Hdis]; [now rewrite Hcv|].
+  destruct (check_valid req); cbn [negb]; [assumption | reflexivity].
+Qed.
+
+(* C11, second half, at full strength *)
+Lemma malformed_silent : forall st b, malformed b = true ->
+  step true st b = (st, {| o_reply := Status 400; o_exit := false; o_pubs := [] |}).
+Proof.
+  intros st b Hm. unfold step. rewrite (malformed_rejected st b Hm). reflexivity.
+Qed.
+
+(* ---- the code as found (fixed = false) and the nesting limit: witnesses ------------------------------------- *)
+Definition wst : state := fixture true true.
+Definition w_invite : body := Doc (JObj [("type", JStr "invite")]).
+Definition w_switchto : body :=
+  Doc (JObj [("type", JStr "switchto"); ("switchto", JObj [("roomid", JStr "x"); ("sessions", JStr "abc")])]).
+Definition w_update : body := Doc (JObj [("type", JStr "update")]).
+Definition w_deep : body :=
+  Doc (JObj [("type", JStr "message"); ("message", JObj [("data", jnest 9998 (JNum 1))])]).
+
+Lemma unrepaired_no_reply : o_reply (snd (step false wst w_invite)) = NoReply.
+Proof. vm_compute. reflexivity. Qed.
+Lemma unrepaired_500 : shallow w_switchto /\ o_reply (snd (step false wst w_switchto)) = Status 500.
+Proof. split; [vm_compute; reflexivity | vm_compute; reflexivity]. Qed.
+Lemma unrepaired_exit : o_exit (snd (step false wst w_update)) = true /\ o_reply (snd (step false wst w_update)) = NoReply.
+Proof. split; vm_compute; reflexivity. Qed.
+Lemma unrepaired_published_before_panic :
+  exists r, o_pubs (snd (step false wst w_update)) = [PBackendRoom r].
+Proof. eexists. vm_compute. reflexivity. Qed.
+Lemma repaired_witnesses :
+  o_reply (snd (step true wst w_invite)) = Status 400 /\
+  o_reply (snd (step true wst w_switchto)) = Status 400 /\
+  snd (step true wst w_update) = {| o_reply := Status 400; o_exit := false; o_pubs := [] |}.
+Proof. repeat split; vm_compute; reflexivity. Qed.
+
+Lemma nesting_500 : o_reply (snd (step true (fixture false true) w_deep)) = Status 500 /\
+                    malformed w_deep = false /\ dialout_ok (fixture false true).
+Proof. split; [vm_compute; reflexivity | split; [vm_compute; reflexivity | exact I]]. Qed.
+
+(* non-vacuity: a well-formed request that passes all hypotheses and reaches clients *)
+Definition ex_incall : body :=
+  Doc (JObj [("type", JStr "incall");
+             ("incall", JObj [("incall", JNum 1);
+                              ("changed", JArr [JObj [("sessionId", JStr "c11-rs"); ("inCall", JNum 1)]]);
+                              ("users", JArr [JObj [("sessionId", JStr "c11-rs"); ("inCall", JNum 1)]; JObj [("sessionId", JNum 5)]])])]).
+Lemma ex_incall_ok :
+  shallow ex_incall /\ dialout_ok wst /\ malformed ex_incall = false /\
+  o_reply (snd (step true wst ex_incall)) = Status 200 /\
+  events_for wst fixture_sid (o_pubs (snd (step true wst ex_incall))) = [KParticipants 1] /\
+  st_incall (fst (step true wst ex_incall)) = [fixture_sid].
+Proof. repeat split; vm_compute; reflexivity. Qed.
+
+Definition ex_malformed : list body :=
+  [BadSyntax; Doc JNull; Doc (JArr []); Doc (JObj []); Doc (JObj [("type", JNum 1)]);
+   Doc (JObj [("type", JStr "transient"); ("transient", JObj [("action", JStr "set"); ("key", JStr "k")])]);
+   Doc (JObj [("type", JStr "invite"); ("invite", JNull)]);
+   Doc (JObj [("type", JStr "message"); ("message", JObj []); ("dialout", JStr "x")]);
+   Doc (JObj [("type", JStr "switchto"); ("switchto", JObj [("roomid", JStr "r"); ("sessions", JArr [JStr "a"; JNum 2])])])].
+Lemma ex_malformed_ok : forallb malformed ex_malformed = true.
+Proof. vm_compute. reflexivity. Qed.
